@@ -45,8 +45,8 @@ def unit_fixed_row_writer_write_row():
                             returns=[Clause(wrote, "emits-the-concatenated-items-then-the-line-separator-nothing-else", props=["C14"]),
                                      Clause("loc._line == line0 + 1 and loc._cell == 0", "advances-to-the-next-line", props=["C14"])],
                             raises={"DataFormatError": [Clause(lambda ex, st: Sym(BOOL, z3.BoolVal(len(st.ghost["writes"]) == 0)), "an-encoding-failure-emits-nothing", props=["C14", "C10"])]},
-                            loops={0: LoopSpec(invariants=[], havoc={"field_index": INT, "field_value": STR, "field_name": STR, "expected_field_length": INT, "actual_field_length": INT, "loc._cell": INT})},
-                            expect=["return", "DataFormatError"], n_loops=1, raises_only_props=["C14", "C10"]),
+                            loops={0: LoopSpec(invariants=[], havoc={"field_index": INT, "field_value": STR, "field_name": STR, "expected_field_length": INT, "actual_field_length": INT, "loc._cell": INT}, match="enumerate(row_to_write)")},
+                            expect=["return", "DataFormatError"], raises_only_props=["C14", "C10"]),
                         "callees": {"ref:Stream.write": m_stream_write}, "label": label,
                         "assumptions": ["precondition (established by Writer._padded_fixed_row + validate_length, verified): the row has one item per field, each of exactly its width",
                                         "stream.write raises only UnicodeEncodeError; ''.join(row) is an uninterpreted concatenation tagged with its argument"]})
